@@ -28,6 +28,15 @@ THEOREMS = [
     "PorepyVerif.C35.whereTrue_spec",
     "PorepyVerif.C35.slice_indices_eq",
     "PorepyVerif.C35.zero_rows_eq_dense",
+    "PorepyVerif.C35.merge_eq_row_replacement",
+    "PorepyVerif.C35.replaceRows_spec",
+    "PorepyVerif.C35.from_sparse_blocks_eq_block_diag",
+    "PorepyVerif.C35.from_sparse_blocks_empty",
+    "PorepyVerif.C35.kron_identity_dense",
+    "PorepyVerif.C35.expand_indices_nd_eq",
+    "PorepyVerif.C35.expand_indices_add_increment_eq",
+    "PorepyVerif.C35.block_diag_index_square",
+    "PorepyVerif.C35.block_diag_index_eq_coordinates",
 ]
 LEAN_MODULES = ["PorepyVerif.C35.Props"]
 AUDIT = "PorepyVerif/C35/Audit.lean"
